@@ -49,6 +49,13 @@ pub struct GeoCase {
     /// test (TABs in the literals around the bar are expanded at the width in force)
     #[serde(default)]
     retab: Option<(u8, u8)>,
+    /// wide_bar only: the template line above the bar's line is `{wide_msg}` (its own wide element), not a literal
+    #[serde(default)]
+    msg_line_above: bool,
+    /// wide_bar only: the bar's line starts with `{prefix} ` and the prefix is text wrapped in colour escape
+    /// sequences by the caller (zero columns; the harness runs with template colours switched off)
+    #[serde(default)]
+    sgr_prefix: bool,
 }
 
 struct Parsed {
@@ -276,9 +283,15 @@ fn run_geo(c: &GeoCase) -> CaseResult {
             v.label_if(chars.last().map_or(false, |c| c.chars().all(char::is_whitespace)), "blank_background_glyph");
         }
         Some((term, left, right)) => {
-            let mut template = format!("{left}{{wide_bar}}{right}{{frac}}");
+            let lead = if c.sgr_prefix { "{prefix} " } else { "" };
+            let mut template = format!("{lead}{left}{{wide_bar}}{right}{{frac}}");
             let (mut nlines, mut bar_line) = (1, 0);
-            if let Some(a) = &c.extra.0 {
+            if c.msg_line_above {
+                template = format!("{{wide_msg}}\n{template}");
+                nlines += 1;
+                bar_line = 1;
+                v.label("wide_msg_line_above_the_wide_bar_line");
+            } else if let Some(a) = &c.extra.0 {
                 template = format!("{a}\n{template}");
                 nlines += 1;
                 bar_line = 1;
@@ -303,6 +316,13 @@ fn run_geo(c: &GeoCase) -> CaseResult {
             v.label_if(c.in_multi, "wide_bar_inside_multi_progress");
             v.label_if(chars.last().map_or(false, |c| c.chars().all(char::is_whitespace)), "blank_background_glyph");
             v.label_if(nlines > 1, "wide_bar_in_multi_line_template");
+            if c.sgr_prefix {
+                r.pb.set_prefix("\u{1b}[31mjob\u{1b}[0m");
+                v.label("caller_coloured_text_on_the_wide_bar_line");
+            }
+            if c.msg_line_above {
+                r.pb.set_message("copying");
+            }
             let tabbed = left.contains('\t') || right.contains('\t');
             if let Some((w1, w2)) = c.retab {
                 r.pb.set_tab_width(w1 as usize % 13);
@@ -311,7 +331,7 @@ fn run_geo(c: &GeoCase) -> CaseResult {
                 v.label_if(tabbed && w1 % 13 != w2 % 13, "tab_width_changed_between_two_frames_of_a_line_with_a_tab");
             }
             let tw = c.retab.map_or(8, |(_, w2)| w2 as usize % 13);
-            let (left, right) = (&crate::model::expand_tabs(left, tw), &crate::model::expand_tabs(right, tw));
+            let (left, right) = (&format!("{}{}", if c.sgr_prefix { "\u{1b}[31mjob\u{1b}[0m " } else { "" }, crate::model::expand_tabs(left, tw)), &crate::model::expand_tabs(right, tw));
             let (line, frac) = r.draw_end(c.len, c.pos, c.end).map_err(|p| Fail::new("panic", format!("drawing {template:?} on {term} columns: {p}")))?;
             let rest = console::measure_text_width(left) + console::measure_text_width(right);
             let bar = line
@@ -418,7 +438,7 @@ fn geo_strategy() -> BoxedStrategy<GeoCase> {
     );
     let extra = (proptest::option::weighted(0.3, "[a-z:. \u{e9}\u{4e16}]{0,12}"), proptest::option::weighted(0.3, "[a-z:. \u{e9}\u{4e16}]{0,12}"));
     (chars_strategy(), width, len_pos_strategy(), wide, extra, any::<bool>(), proptest::option::weighted(0.3, 1u16..300), prop_oneof![3 => Just(0u8), 1 => Just(1u8), 1 => Just(2u8)], proptest::option::weighted(0.25, 0u8..3), proptest::option::weighted(0.3, (0u8..13, 0u8..13)))
-        .prop_map(|(chars, width, (len, pos), wide, extra, in_multi, resized_from, order, end, retab)| GeoCase { default_width: wide.is_none() && width % 7 == 0, chars, width, len, pos, wide, extra, in_multi, resized_from, order, end, retab })
+        .prop_map(|(chars, width, (len, pos), wide, extra, in_multi, resized_from, order, end, retab)| GeoCase { default_width: wide.is_none() && width % 7 == 0, msg_line_above: width % 5 == 1, sgr_prefix: width % 4 == 2, chars, width, len, pos, wide, extra, in_multi, resized_from, order, end, retab })
         .boxed()
 }
 
@@ -546,7 +566,7 @@ pub fn property() -> Property {
                 cases: |t| t.pick(60_000, 1_000_000),
                 run: run_geo,
                 signature: no_signature,
-                essential: &["partial_progress", "full", "double_width_cells", "huge_len", "two_chars", "wide_bar", "bar_without_a_width", "blank_background_glyph", "wide_bar_in_multi_line_template", "wide_bar_inside_multi_progress", "terminal_resized_between_frames", "rest_does_not_fit", "odd_remainder", "template_set_after_progress_chars", "finished_bar_short_of_its_length", "tab_width_changed_between_two_frames_of_a_line_with_a_tab"],
+                essential: &["partial_progress", "full", "double_width_cells", "huge_len", "two_chars", "wide_bar", "bar_without_a_width", "blank_background_glyph", "wide_bar_in_multi_line_template", "wide_bar_inside_multi_progress", "terminal_resized_between_frames", "rest_does_not_fit", "odd_remainder", "template_set_after_progress_chars", "finished_bar_short_of_its_length", "tab_width_changed_between_two_frames_of_a_line_with_a_tab", "wide_msg_line_above_the_wide_bar_line", "caller_coloured_text_on_the_wide_bar_line"],
                 workers: w,
                 decode: None,
             }));
